@@ -1007,8 +1007,9 @@ func (r *Runtime) regexpproto_stdSplitter(call FunctionCall) Value {
 	s := call.Argument(0).toString()
 	limitValue := call.Argument(1)
 	var splitter *Object
-	search := r.checkStdRegexp(rxObj)
 	c := r.speciesConstructorObj(rxObj, r.getRegExp())
+	// looking up the species constructor runs user code (a 'constructor' getter), which can replace exec
+	search := r.checkStdRegexp(rxObj)
 	if search == nil || c != r.global.RegExp {
 		flags := nilSafe(rxObj.self.getStr("flags", nil)).toString()
 		flagsStr := flags.String()
